@@ -23,6 +23,36 @@ CHECKS = {
                      "re-encode to the identical bytes and every O/T/TL/V/L attribute must equal the independent parse; mutated, random and "
                      "nesting-bomb inputs check the safety clause (exit status, diagnostic, no sanitizer report, no hang).",
                 note="Trusts vf/asn/der.py:parse_tlv; inputs are sampled; bombs to depth 10^4 (quick) / 10^5 (thorough)."),
+    "C01": dict(level="exploration", engine="vdriver", ref="DESIGN.md 4/C01",
+                technique="sanitizer-watched round-trip/transcoding workload over generated modules; self-consistency monitor over the driver event log with an independent DER anchor",
+                text="Generated modules over the type algebra of the statement are compiled with the asn1c of the current tree and linked (ASan+UBSan+ledger) "
+                     "with the generic driver; boundary-biased values enter through the reference DER and are pushed through every ordered pair of the five "
+                     "syntaxes; each step is judged for rc, consumed==produced, compare_struct and DER equality.",
+                note="Values enter by ber_decode of the reference DER (entry failures counted inconclusive); constructs with a listed known finding are run only as targeted cases; values sampled."),
+    "C04": dict(level="exploration", engine="vdriver", ref="DESIGN.md 4/C04",
+                technique="ASan+UBSan+allocation-ledger watched decoding of structure-aware mutants; return-value and post-decode lifecycle monitor",
+                text="Valid encodings in BER/OER/UPER/XER of generated (incl. recursive) types are truncated at every offset, bit-flipped, length-edited, spliced "
+                     "and randomised; every mutant is decoded, then the structure printed, validated, re-encoded in five syntaxes and freed under sanitizers, a "
+                     "watchdog and the ledger (leaks, encoder-held allocations).",
+                note="Sanitizers only see executed paths; nonnull-attribute UBSan check disabled (zero-length libc calls); mutants sampled, no coverage guidance in quick."),
+    "C05": dict(level="exploration", engine="vdriver", ref="DESIGN.md 4/C05",
+                technique="history monitor: chunked vs one-shot decoding of the same bytes, exhaustive over 2-chunk split points of each explored encoding",
+                text="Reference DER, reference BER variants (indefinite, constructed strings, long lengths) and the library's own OER/XER output are decoded one-shot "
+                     "and with the manual's restart protocol at every split point and on sampled k-chunk schedules (1-byte feeding, zero-byte presentations); final rc, "
+                     "total consumed, DER of the result and RC_WMORE on prefixes are compared; resumption states seen are counted.",
+                note="UPER excluded (documented non-restartable); exhaustive only over 2-splits of encodings up to the length cap; known restart defects (BER indefinite/constructed strings, OER) are listed findings."),
+    "C14": dict(level="fault_enumeration", engine="vdriver", ref="DESIGN.md 4/C14",
+                technique="allocation-failure enumeration through a link-time allocator ledger + lifecycle history monitor under ASan",
+                text="For each PDU/value/syntax: histories over decode-prefix, decode-garbage, RESET, re-decode, encode, failing callback, FREE_CONTENTS_ONLY, FREE; and for "
+                     "every decoder and encoder call the failure of the k-th allocation for each k reached (capped); the ledger decides leaks / encoder-held allocations, "
+                     "RESET must leave zero bytes and a later decode must equal a decode into a fresh structure.",
+                note="Single allocation fault per call; k capped (24 quick / 120 thorough); allocator interposed by --wrap on the libc names."),
+    "C15": dict(level="exploration", engine="vdriver", ref="DESIGN.md 4/C15",
+                technique="adversarial-input workload in a small-stack thread with process-signal, allocation-ledger and watchdog monitors",
+                text="Recursive/collection types are decoded from model-built nesting bombs (depth 10..10^5, 10^6 thorough; BER definite/indefinite/constructed strings, XER, UPER, OER), "
+                     "maximal length prefixes and zero-width element floods, in a 256 KiB-stack thread with default and caller-supplied max_stack_size; death by signal = stack "
+                     "exhaustion; ledger peak must stay below 64 KiB + 8 KiB per input byte.",
+                note="Fixed module; depth bounded; heap constant deliberately generous; plain build for stack clause, ASan build for memory errors."),
 }
 
 PENDING_REASON = "check not implemented yet (bring-up in progress; see DESIGN.md section 9)"
